@@ -441,15 +441,27 @@ class HSplit(_Split):
         # the whole height.)
         sizes = [d.min for d in dimensions]
 
+        # Only children with a positive weight are ever handed extra space
+        # (`take_using_weights` skips the others). Without any, everybody
+        # stays at the minimum size.
+        weighted = [k for k, d in enumerate(dimensions) if d.weight > 0]
+        if not weighted:
+            return sizes
+
         child_generator = take_using_weights(
             items=list(range(len(dimensions))), weights=[d.weight for d in dimensions]
         )
 
         i = next(child_generator)
 
-        # Increase until we meet at least the 'preferred' size.
-        preferred_stop = min(height, sum_dimensions.preferred)
+        # Increase until we meet at least the 'preferred' size. (Never wait
+        # for space that only a zero-weight child could take.)
         preferred_dimensions = [d.preferred for d in dimensions]
+        preferred_stop = min(
+            height,
+            sum_dimensions.preferred,
+            sum(sizes) + sum(preferred_dimensions[k] - sizes[k] for k in weighted),
+        )
 
         while sum(sizes) < preferred_stop:
             if sizes[i] < preferred_dimensions[i]:
@@ -458,8 +470,12 @@ class HSplit(_Split):
 
         # Increase until we use all the available space. (or until "max")
         if not get_app().is_done:
-            max_stop = min(height, sum_dimensions.max)
             max_dimensions = [d.max for d in dimensions]
+            max_stop = min(
+                height,
+                sum_dimensions.max,
+                sum(sizes) + sum(max_dimensions[k] - sizes[k] for k in weighted),
+            )
 
             while sum(sizes) < max_stop:
                 if sizes[i] < max_dimensions[i]:
@@ -636,14 +652,26 @@ class VSplit(_Split):
         # the whole width.)
         sizes = [d.min for d in dimensions]
 
+        # Only children with a positive weight are ever handed extra space
+        # (`take_using_weights` skips the others). Without any, everybody
+        # stays at the minimum size.
+        weighted = [k for k, d in enumerate(dimensions) if d.weight > 0]
+        if not weighted:
+            return sizes
+
         child_generator = take_using_weights(
             items=list(range(len(dimensions))), weights=[d.weight for d in dimensions]
         )
 
         i = next(child_generator)
 
-        # Increase until we meet at least the 'preferred' size.
-        preferred_stop = min(width, sum_dimensions.preferred)
+        # Increase until we meet at least the 'preferred' size. (Never wait
+        # for space that only a zero-weight child could take.)
+        preferred_stop = min(
+            width,
+            sum_dimensions.preferred,
+            sum(sizes) + sum(preferred_dimensions[k] - sizes[k] for k in weighted),
+        )
 
         while sum(sizes) < preferred_stop:
             if sizes[i] < preferred_dimensions[i]:
@@ -652,7 +680,11 @@ class VSplit(_Split):
 
         # Increase until we use all the available space.
         max_dimensions = [d.max for d in dimensions]
-        max_stop = min(width, sum_dimensions.max)
+        max_stop = min(
+            width,
+            sum_dimensions.max,
+            sum(sizes) + sum(max_dimensions[k] - sizes[k] for k in weighted),
+        )
 
         while sum(sizes) < max_stop:
             if sizes[i] < max_dimensions[i]:
